@@ -6,8 +6,8 @@ import F1Verif.Generated.Facts
 import F1Verif.Expected
 namespace F1.Props.FactsC03
 
-theorem fact_manager_NextIteration : F1.Generated.skel_manager_NextIteration = F1.Expected.skel_manager_NextIteration := by rfl
-theorem fact_manager_MaxIterationsReached : F1.Generated.skel_manager_MaxIterationsReached = F1.Expected.skel_manager_MaxIterationsReached := by rfl
+-- (manager_NextIteration, manager_MaxIterationsReached: re-proved semantically on the regenerated MiniGo programs, see Props/Refine*.lean)
+
 theorem fact_cpool_startWorker : F1.Generated.skel_cpool_startWorker = F1.Expected.skel_cpool_startWorker := by rfl
 theorem fact_pool_run : F1.Generated.skel_pool_run = F1.Expected.skel_pool_run := by rfl
 theorem fact_manager_New : F1.Generated.skel_manager_New = F1.Expected.skel_manager_New := by rfl
